@@ -454,7 +454,13 @@ func (vc *VC) hget(h *Heap, comp string) string {
 		if sort == "(Array Int Slice)" {
 			val = "(s-arr " + val + ")"
 		}
-		vc.decl("closed:"+n, fmt.Sprintf("(assert (forall ((a Int)) (! (=> %s (< %s %s)) :pattern ((select %s a)))))", vc.existedAt("a", a), val, a, n))
+		concl := fmt.Sprintf("(< %s %s)", val, a)
+		if sort != "(Array Int Slice)" {
+			// a stored reference denotes an existing object (also an element
+			// or embedded-struct reference, which is negative)
+			concl = vc.existedAt(val, a)
+		}
+		vc.decl("closed:"+n, fmt.Sprintf("(assert (forall ((a Int)) (! (=> %s %s) :pattern ((select %s a)))))", vc.existedAt("a", a), concl, n))
 	}
 	if comp == compAlloc {
 		vc.decl("allocpos:"+n, "(assert (< 0 "+n+"))")
